@@ -594,8 +594,10 @@ theorem xf_wf_align (x : Xf) (ha : isAlignCls x.cls = true) (hw : x.wf = true) :
   · rename_i t ht; rw [ht]; simp at hw; rw [hw]
   · cases hw
 
-/-- PROPERTY (alignment transforms): after a parameter update the target equals the aligned source, and
-the source is the receiver's -/
+/-- PROPERTY (alignment transforms), for receivers whose target was ALREADY the aligned source (`x.wf`; not true of a
+freshly constructed alignment — see `alignment_target_resynced_any` for the statement without that hypothesis, which
+covers every receiver but cannot speak about a sub-eps quaternion): after a parameter update the target equals the
+aligned source, and the source is the receiver's -/
 theorem alignment_target_resynced (V : Variant) (x x' : Xf) (v : Vec) (ha : isAlignCls x.cls = true)
     (hw : x.wf = true) (h : x.fromVec V v = .ok x') :
     applyAff x'.h x'.src = .ok x'.tgt ∧ x'.src = x.src ∧ x'.cls = x.cls := by
@@ -648,6 +650,74 @@ theorem alignment_target_resynced (V : Variant) (x x' : Xf) (v : Vec) (ha : isAl
       rcases h4 with ⟨_, h4⟩ | ⟨h4, _⟩
       · exact ⟨h4, h3, h1⟩
       · exact absurd rfl h4
+
+/-- PROPERTY (alignment transforms), WITHOUT any assumption on the receiver's target: whatever target the alignment was
+built with (the constructors keep the caller's target, which is in general NOT the aligned source), after a parameter
+update through `from_vector` the target IS the aligned source.  The only proviso is the one the code itself makes: a
+quaternion of squared norm below `4 eps` makes `Rotation._from_vector_inplace` return without touching the object
+(outside the property's quantifier: unit quaternions). -/
+theorem alignment_target_resynced_any (V : Variant) (x x' : Xf) (v : Vec) (ha : isAlignCls x.cls = true)
+    (hq : x.cls = .AlignmentRotation → ∀ w a b c : Rat, v = [w, a, b, c] → ¬ (w * w + a * a + b * b + c * c < eps4))
+    (h : x.fromVec V v = .ok x') :
+    applyAff x'.h x'.src = .ok x'.tgt ∧ x'.src = x.src ∧ x'.cls = x.cls := by
+  obtain ⟨cls, hm, s, t⟩ := x
+  cases cls <;> simp [isAlignCls] at ha
+  · -- AlignmentAffine
+    rw [fromVec_AlignmentAffine] at h
+    unfold affineFvi at h
+    repeat' split at h
+    all_goals first | (cases h; done) | skip
+    all_goals
+      obtain ⟨h1, _, h3, h4⟩ := setH_ok _ _ _ _ h
+      rcases h4 with ⟨_, h4⟩ | ⟨h4, _⟩
+      · exact ⟨h4, h3, h1⟩
+      · exact absurd rfl h4
+  · -- AlignmentSimilarity
+    rw [fromVec_AlignmentSimilarity] at h
+    obtain ⟨y, hy, hs⟩ := bindSync_ok _ _ h
+    obtain ⟨h1, _, h3, h4⟩ := syncTarget_ok _ _ hs
+    unfold similarityFvi at hy
+    repeat' split at hy
+    all_goals first | (cases hy; done) | skip
+    obtain ⟨g1, _, g3, _⟩ := setH_ok _ _ _ _ hy
+    exact ⟨h4, h3.trans g3, h1.trans g1⟩
+  · -- AlignmentTranslation
+    rw [fromVec_AlignmentTranslation] at h
+    obtain ⟨y, hy, hs⟩ := bindSync_ok _ _ h
+    obtain ⟨h1, _, h3, h4⟩ := syncTarget_ok _ _ hs
+    unfold translationFvi at hy
+    dsimp only at hy
+    repeat' split at hy
+    all_goals first | (cases hy; done) | skip
+    all_goals (injection hy with hy; subst hy; exact ⟨h4, h3, h1⟩)
+  · -- AlignmentUniformScale
+    rw [fromVec_AlignmentUniformScale] at h
+    obtain ⟨y, hy, hs⟩ := bindSync_ok _ _ h
+    obtain ⟨h1, _, h3, h4⟩ := syncTarget_ok _ _ hs
+    unfold uniformScaleFvi at hy
+    repeat' split at hy
+    all_goals first | (cases hy; done) | skip
+    all_goals (injection hy with hy; subst hy; exact ⟨h4, h3, h1⟩)
+  · -- AlignmentRotation
+    rw [fromVec_AlignmentRotation] at h
+    unfold rotationFvi at h
+    repeat' split at h
+    all_goals first | (cases h; done) | skip
+    · rename_i w a b c hlt
+      exact absurd hlt (hq rfl w a b c rfl)
+    · obtain ⟨h1, _, h3, h4⟩ := setRot_ok _ _ _ _ h
+      rcases h4 with ⟨_, h4⟩ | ⟨h4, _⟩
+      · exact ⟨h4, h3, h1⟩
+      · exact absurd rfl h4
+
+/-- non-vacuity of `alignment_target_resynced_any`: an alignment whose target is NOT the aligned source (as every
+freshly constructed one) -/
+def exAlignU : Xf := ⟨.AlignmentTranslation, [[1, 0, 2], [0, 1, 3], [0, 0, 1]], [[0, 0], [1, 0], [0, 1]],
+  [[7, -1], [4, 4], [0, 9]]⟩
+example : exAlignU.wf = false := by decide +kernel
+example : exAlignU.fromVec fixed [10, 20] =
+    .ok ⟨.AlignmentTranslation, [[1, 0, 10], [0, 1, 20], [0, 0, 1]], [[0, 0], [1, 0], [0, 1]],
+      [[10, 20], [11, 20], [10, 21]]⟩ := by decide +kernel
 
 /-! ### well-formedness of whatever the patched `from_vector` accepts, supplier by supplier -/
 
@@ -1426,7 +1496,7 @@ theorem expected_rows_pure : ∀ r ∈ expectedDispatch, rowPure r = true := by 
 the class, then the attribute rebindings, then the in-place writes through the copy's references leave every
 buffer of the receiver as it was, provided every buffer written in place is fresh in the copy (`rowPure`,
 discharged for every class by `expected_rows_pure` / `GenProps.dispatch_pure`; which buffers are written,
-rebound and fresh is measured on the live objects, `GenProps.effects_ok`); and the copy starts out equal to
+rebound and fresh is measured on the live objects, `GenProps.effects_sound` / `effects_pure`); and the copy starts out equal to
 the receiver -/
 theorem from_vector_pure_heap (fresh : Buf → Bool) (rebinds writes : List Buf) (hw : writes.all fresh = true)
     (H : Heap) (o : Obj) (hv : ∀ b, o b < H.next) (new : Buf → List Rat) :
